@@ -20,12 +20,13 @@ fn concretise_line(ln: &Value, i: usize) -> String {
     match k {
         "T" => {
             let tag = ln["tag"].as_str().unwrap_or("");
-            if txt.is_empty() { format!(":{}:", tag) } else { format!(":{}:VALUE{}", tag, i) }
+            if txt.is_empty() { format!(":{}:", tag) } else if txt.ends_with('-') { format!(":{}:VALUE{}-", tag, i) } else { format!(":{}:VALUE{}", tag, i) }
         }
         "C" => match txt {
             "colon" => format!(":NOT A TAG {}", i),
             "marker" => format!("SEE :20: ABOVE {}", i),
             "dashy" => format!("-BULLET {}", i),
+            "enddash" => format!("REF PO-2024-{}-", i),
             _ => format!("CONT LINE {}", i),
         },
         "D" => "-".to_string(),
@@ -99,7 +100,7 @@ fn pattern(lines: &[Value]) -> String {
         .map(|l| {
             let k = l["k"].as_str().unwrap_or("");
             match k {
-                "T" => format!("T{}", if l["txt"].as_str().unwrap_or("").is_empty() { "e" } else { "" }),
+                "T" => format!("T{}", match l["txt"].as_str().unwrap_or("") { "" => "e", "X-" => "d", _ => "" }),
                 "C" => format!("C{}", l["txt"].as_str().unwrap_or("")),
                 o => o.to_string(),
             }
